@@ -20,7 +20,7 @@ from harness import scen, xmlabs
 from harness.gallina import glist, gstr
 
 ID = "C05"
-COQ_TARGETS = ["XmiLoad.vo", "XmiLoadProofs.vo", "XmiLoadProofs2.vo", "CorrC05.vo",
+COQ_TARGETS = ["XmiLoad.vo", "XmiLoadProofs.vo", "XmiLoadProofs2.vo", "XmiLoadProofs3.vo", "CorrC05.vo",
                "JsonDoc.vo", "Json.vo", "JsonProofs.vo", "JsonProofs2.vo", "JsonLoadProofs.vo", "JsonLex.vo", "PropsJson.vo",
                "Props/C05.vo"]
 PROPS_FILE = "Props/C05.v"
@@ -53,7 +53,9 @@ TRUSTED = [
 ASSUMPTIONS = [
     "user features are not called sofa, xmiID, elements, head or tail (DESIGN section 6: structural names; Cas.add sets any "
     "attribute called sofa)",
-    "premises of C05_load_xmi_is_denotation_general (reader_okb0, counted per case): closed document (doc_ok_xmi), "
+    "premises of C05_load_xmi_total (reader_okb0 and total_okb, counted per case): no attribute on a Sofa or feature "
+    "structure element that the constructors do not know, every element of a subtype of AnnotationBase carries a sofa "
+    "attribute naming a sofa, the cas:NULL element is present; and of C05_load_xmi_is_denotation_general: closed document (doc_ok_xmi), "
     "distinct view names, elements of defined types named by the UIMA rule, child elements only under string "
     "array / list features, annotations members of the view of their own sofa only; an _InitialView sofa is NOT required "
     "(without one the pre-created view gets the next free xmi:id and sofaNum)",
